@@ -53,6 +53,14 @@ def combos(tier):
         krome_late = ["@format:idx,R,R,P,P,Tmin,Tmax,rate", "1,H,H,H,H,NONE,NONE,1.0d-10", "@common:user_crate", "@var:Tsq = Tgas*Tgas",
                       "2,H,E,H,E,10,1d4,2.0d-9*user_crate*Tsq"]
         out.append(("krome-late-directives", {"net.krome": krome_late}, ["krome"], "", {}, b))
+        # a user variable that re-defines a symbol the KROME reader also registers itself (Te), and a second one that depends on it
+        krome_shadow = ["@format:idx,R,R,P,P,Tmin,Tmax,rate", "@var:Te = Tgas*8.617343d-5", "@var:kion = 5.85d-11*sqrt(Te)",
+                        "1,H,E,H,E,NONE,NONE,kion*exp(-157809.1d0/Tgas)", "2,H,H,H,H,NONE,NONE,kion*1.0d-3"]
+        out.append(("krome-shadowed-builtin", {"net.krome": krome_shadow}, ["krome"], "", {}, b))
+        if b[1] == "dense":
+            # a user variable written in terms of one of KROME's standard shortcuts (invTe), which the reader registers itself
+            krome_uses = ["@format:idx,R,R,P,P,Tmin,Tmax,rate", "@var:kk2 = 1.0d-3*invTe", "1,H,H,H,H,NONE,NONE,kk2*1.0d-3"]
+            out.append(("krome-var-uses-builtin", {"net.krome": krome_uses}, ["krome"], "", {}, b))
         out.append(("kida+umist", {"net.kida": kida, "net.umist": umist}, ["kida", "umist"], "", {}, b))
         for gm in ("hh93", "hh93i"):
             out.append((f"leeds/{gm}", {"net.leeds": leeds}, ["leeds"], gm, {}, b))
